@@ -315,8 +315,10 @@ func ruleX3(c *an.Ctx) {
 	if writeDisable == nil || getLen == nil || getKeys == nil {
 		return
 	}
+	// the disable may be performed by a helper every path of which calls writeDisable
+	mdWD := &an.MustDo{Pred: func(in ssa.Instruction) bool { return an.CalleeIs(in, writeDisable) }, Depth: 2}
 	hits := func(s *ssa.BasicBlock) bool {
-		return !reachExitAvoiding(s, func(in ssa.Instruction) bool { return an.CalleeIs(in, writeDisable) })
+		return !reachExitAvoiding(s, func(in ssa.Instruction) bool { return mdWD.Instr(in, 0) })
 	}
 	nLen, nKeys, nNil, nNull := 0, 0, 0, 0
 	for _, fn := range coreFns(c) {
@@ -326,7 +328,7 @@ func ruleX3(c *an.Ctx) {
 		if !strings.HasPrefix(fn.Name(), "expand") {
 			continue
 		}
-		callsWD := len(callsTo(fn, writeDisable)) > 0
+		callsWD := an.MayDo(fn, func(in ssa.Instruction) bool { return an.CalleeIs(in, writeDisable) }, 2)
 		for _, b := range fn.Blocks {
 			for _, s := range b.Succs {
 				cnd, t, ok := an.EdgeCond(b, s)
@@ -379,7 +381,7 @@ func ruleX3(c *an.Ctx) {
 	}
 	c.Floor("X3", "n==0 edges after getUnknownLength", nLen, 1)
 	c.Floor("X3", "len(keys)==0 edges after getUnknownKeys", nKeys, 1)
-	c.Floor("X3", "nil-collection edges", nNil, 2)
+	c.Floor("X3", "nil-collection edges", nNil, 1)
 	c.Floor("X3", "NullExp arms", nNull, 1)
 
 	// Fork.disabled: a zero-length range part means disabled
@@ -468,7 +470,7 @@ func ruleX4(c *an.Ctx) {
 		c.Undecided("anchor", "RuntimeOptions.SkipPreflight", token.NoPos, "field not found")
 		return
 	}
-	got := callerNames(p, skip)
+	got := effectiveCallers(p, skip, []string{"(*Fork).writeDisable", "(*Node).step"})
 	ok, extra := subset(got, []string{"(*Fork).writeDisable", "(*Node).step"})
 	c.Check("X4", "callers((*Fork).skip)", skip.Pos(), ok, fmt.Sprintf("skip() marks a fork disabled without running it; callers %v, unexpected %q", got, extra))
 	for _, call := range callsTo(nodeStep, skip) {
